@@ -72,7 +72,7 @@ Definition v_outcome (o : outcome) : val :=
 Definition err_code (e : err) : Z :=
   match e with
   | EWhitespace => 1 | EIdent => 2 | EDup => 3 | EMissingConv => 4 | EUnknownConv => 5
-  | ECannotInst => 6 | ENoChildren => 7 | EConflict => 8 | EComplexMulti => 9
+  | ECannotInst => 6 | ENoChildren => 7 | EConflict => 8 | EComplexMulti => 9 | EBadResponders => 10
   end.
 Definition v_ires (r : ires) : val := match r with IOk => I 0 | IErr e => I (err_code e) end.
 
@@ -124,7 +124,10 @@ Variable cm : str -> bool.
 Definition do_op (r : router) (op : val) : router * val :=
   match op with
   | L [I 0; tpl; rid; comp] =>
-    let '(r', x) := router_add ci cm ident_strict insert_atomic r (dstr tpl) (dN rid) (dbool comp) in
+    let '(r', x) := router_add ci cm ident_strict insert_atomic r (dstr tpl) (dN rid) (dbool comp) true in
+    (r', L [I 0; v_ires x])
+  | L [I 0; tpl; rid; comp; rok] =>
+    let '(r', x) := router_add ci cm ident_strict insert_atomic r (dstr tpl) (dN rid) (dbool comp) (dbool rok) in
     (r', L [I 0; v_ires x])
   | L [I 1; uri] =>
     let '(r', o) := router_find ci cm literal_src_quoted r (dstr uri) in
